@@ -1,7 +1,7 @@
 (* C11 - line-search steps are feasible, within budget and strictly downhill.
    Restates lemmas about [line_search] of the driver model (coq/Model/Driver.v, hand-written from linesearch.py). *)
 From Coq Require Import List ZArith Bool String Lia Floats.PrimFloat.
-From LBFGSB Require Generated.Base.
+From LBFGSB Require Generated.MaxStep Model.NumpyOps.
 From LBFGSB Require Import Base.Res Base.Hoare Base.FloatOrd Model.SF Model.FloatVec Model.Driver Generated.Consts
   Proofs.SFProofs Proofs.SFPoints Proofs.DriverBox Proofs.DriverReport Proofs.DriverValues Proofs.DriverLineSearch
   Model.Dcsrch Model.DriverDcs Proofs.DcsrchProofs Proofs.DriverDcsrch Proofs.FloatZero Proofs.DriverStepPositive.
@@ -87,24 +87,24 @@ Proof. exact nan_step_example. Qed.
    is proved equal to the model's [maxstep] for arrays of equal length *)
 Lemma max_step_ratios_from_source : forall x d lb ub : vec, List.length d = List.length x -> List.length lb = List.length x -> List.length ub = List.length x ->
   let mask_ := List.map (fun e_ => negb (eqb e_ 0%float)) d in
-  let tmp_ := LBFGSB.Generated.Base.bwhere (List.map (fun e_ => ltb 0%float e_) (LBFGSB.Generated.Base.bgather mask_ d))
-                (vmap2 div (LBFGSB.Generated.Base.bgather mask_ (vsub ub x)) (LBFGSB.Generated.Base.bgather mask_ d))
-                (vmap2 div (LBFGSB.Generated.Base.bgather mask_ (vsub lb x)) (LBFGSB.Generated.Base.bgather mask_ d)) in
-  LBFGSB.Generated.Base.bgather (List.map FloatVec.is_finite tmp_) tmp_ = step_ratios x d lb ub.
+  let tmp_ := NumpyOps.bwhere (List.map (fun e_ => ltb 0%float e_) (NumpyOps.bgather mask_ d))
+                (vmap2 div (NumpyOps.bgather mask_ (vsub ub x)) (NumpyOps.bgather mask_ d))
+                (vmap2 div (NumpyOps.bgather mask_ (vsub lb x)) (NumpyOps.bgather mask_ d)) in
+  NumpyOps.bgather (List.map FloatVec.is_finite tmp_) tmp_ = step_ratios x d lb ub.
 Proof.
   induction x as [|xi x IH]; intros d lb ub Hd Hl Hu; destruct d as [|di d]; destruct lb as [|l lb]; destruct ub as [|u ub]; try discriminate; [reflexivity|].
   injection Hd as Hd. injection Hl as Hl. injection Hu as Hu. specialize (IH d lb ub Hd Hl Hu). cbv zeta in IH |- *.
-  cbn [List.map step_ratios vsub vmap2 LBFGSB.Generated.Base.bgather]. unfold fzero.
+  cbn [List.map step_ratios vsub vmap2 NumpyOps.bgather]. unfold fzero.
   destruct (eqb di 0) eqn:E0; cbn [negb].
   - exact IH.
-  - cbn [LBFGSB.Generated.Base.bgather List.map vmap2 LBFGSB.Generated.Base.bwhere].
-    destruct (ltb 0 di); cbn [LBFGSB.Generated.Base.bgather List.map]; (destruct (FloatVec.is_finite _); [f_equal|]; exact IH).
+  - cbn [NumpyOps.bgather List.map vmap2 NumpyOps.bwhere].
+    destruct (ltb 0 di); cbn [NumpyOps.bgather List.map]; (destruct (FloatVec.is_finite _); [f_equal|]; exact IH).
 Qed.
 Theorem C11_max_step_from_source : forall (x d lb ub : vec) (cap : float),
   List.length d = List.length x -> List.length lb = List.length x -> List.length ub = List.length x ->
-  LBFGSB.Generated.Base.max_allowed_steplength x d lb ub cap = maxstep x d lb ub cap.
+  LBFGSB.Generated.MaxStep.max_allowed_steplength x d lb ub cap = maxstep x d lb ub cap.
 Proof.
-  intros x d lb ub cap Hd Hl Hu. unfold LBFGSB.Generated.Base.max_allowed_steplength, maxstep. cbv zeta.
+  intros x d lb ub cap Hd Hl Hu. unfold LBFGSB.Generated.MaxStep.max_allowed_steplength, maxstep. cbv zeta.
   rewrite (max_step_ratios_from_source x d lb ub Hd Hl Hu). destruct (step_ratios x d lb ub); reflexivity.
 Qed.
 
